@@ -213,6 +213,23 @@ def ellipse_rules(repo, rep, orc, Rr):
         # the squares and the product of two decimals: exactly singular as decimals, a rounding away from it as doubles
         wit.append(('vcv = [[%g, %g, 0], [%g, %g, 0], [0, 0, 1]] (rank one)' % (v00, v01, v01, v11), [[v00, v01, 0.0], [v01, v11, 0.0], [0.0, 0.0, 1.0]]))
     common.sqrt_boundary_rule(repo, rep, 'geodepy.statistics', 'error_ellipse', f.params[0].name, wit, 'random symmetric PSD matrices including singular ones')
+    # the other degenerate set: a circular block (equal eigenvalues, discriminant zero).  Witnesses a few ulps off it, as an isotropic
+    # covariance rotated into the local frame arrives
+    from decimal import Decimal as D, getcontext
+    getcontext().prec = 60
+
+    def ref_axes(m):
+        v00, v01, v11 = D(m[0][0]), D(m[0][1]), D(m[1][1])
+        z = ((v00 - v11) ** 2 + 4 * v01 ** 2).sqrt()
+        return (float(((v00 + v11 + z) / 2).sqrt()), float(max((v00 + v11 - z) / 2, D(0)).sqrt()), None)
+    circ = []
+    for s_ in (4e-4, 1.0, 2.5e-5, 0.0169):
+        for d_, c_ in ((1e-9, 0.0), (3e-10, 2e-10), (-2e-12, 1e-12), (5e-14, -3e-14), (2e-16, 0.0), (0.0, 1e-13), (-4e-16, 2e-16)):
+            v00, v11, v01 = s_, s_ * (1 + d_), s_ * c_
+            circ.append(('vcv = [[%.17g, %.3g, 0], [%.3g, %.17g, 0], [0, 0, 1]] (circular to %.0e)' % (v00, v01, v01, v11, max(abs(d_), abs(c_))),
+                         [[v00, v01, 0.0], [v01, v11, 0.0], [0.0, 0.0, 1.0]]))
+    common.float_accuracy_rule(repo, rep, 'geodepy.statistics', 'error_ellipse', f.params[0].name, circ, ref_axes, 1e-12, 'accuracy-on-a-circular-block',
+                               'an isotropic covariance rotated into the local frame')
     common.unclamped_root_rule(repo, rep, 'geodepy.statistics', 'relative_error', 'a covariance without an up component')
     # relative error
     g = repo.func('geodepy.statistics', 'relative_error')
